@@ -353,6 +353,7 @@ func (au *c10Audit) Check(cg *BasicConnectionGater, m *c10Model, when string, co
 	}
 	anyPeer := au.peers[2]
 	for _, pr := range au.probes {
+		family := strings.SplitN(pr.Class, "/", 2)[0] // ip4, ip4-mapped, ip6, no-ip, ... (keeps violation keys few and stable)
 		must, mustNot := m.ipVerdict(pr.IP)
 		hooks := []struct {
 			name  string
@@ -364,14 +365,14 @@ func (au *c10Audit) Check(cg *BasicConnectionGater, m *c10Model, when string, co
 		for _, h := range hooks {
 			switch {
 			case must != nil && h.allow && pr.Demand:
-				bad("blocked-"+[]string{"peer", "addr", "subnet"}[must.T.Kind]+"-not-refused/"+h.name+"/"+pr.Class,
+				bad("blocked-"+[]string{"peer", "addr", "subnet"}[must.T.Kind]+"-not-refused/"+h.name+"/"+family,
 					"%s allowed %s although %s is blocked (call returned success)", h.name, pr.Desc, must.T.Name)
 			case must != nil && h.allow:
 				count("undemanded-form-allowed/" + pr.Class)
 			case must != nil:
 				count("blocked-refused/" + h.name)
 			case mustNot != nil && !h.allow && pr.Demand:
-				bad("unblocked-rule-still-enforced/"+h.name+"/"+pr.Class,
+				bad("unblocked-rule-still-enforced/"+h.name+"/"+family,
 					"%s refused %s although %s was unblocked (call returned success) and no blocked or in-flight rule matches", h.name, pr.Desc, mustNot.T.Name)
 			case mustNot != nil && h.allow:
 				count("unblocked-allowed/" + h.name)
